@@ -25,3 +25,65 @@ Definition blocks_spec (size hop : nat) (pad : A) (xs : list A) : list (list A) 
 Definition zero_pad_spec (left right : nat) (zero : A) (xs : list A) : list A :=
   repeat zero left ++ xs ++ repeat zero right.
 End Spec.
+
+(* ------------------------------------------------------------------ *)
+(* Round 2: the sequence is a LIVE list whose owner may change it between two blocks.
+   "Block k is its items k*hop .. k*hop+size-1 at the moment it is produced": the k-th
+   request is answered from what the list holds NOW.  [k] = complete blocks produced so
+   far; [fin] = the end of the data was reached (padded tail given, or nothing). *)
+From AL Require Import C08.Model.
+Section LiveSpec.
+Context {A : Type}.
+
+Definition hist_next (size hop : nat) (pad : A) (k : nat) (fin : bool) (buf : list A)
+  : option (list A) * (nat * bool) :=
+  if fin then (None, (k, true)) else
+  match nth_error (blocks_spec size hop pad buf) k with
+  | Some b => if (k * hop + size <=? length buf)%nat then (Some b, (S k, false)) else (Some b, (k, true))
+  | None => (None, (k, true))
+  end.
+
+Fixpoint hist_spec (size hop : nat) (pad : A) (ops : list (hop_t A)) (buf : list A) (k : nat) (fin : bool)
+  : list (option (list A)) :=
+  match ops with
+  | [] => []
+  | HNext :: r => let '(o, (k', fin')) := hist_next size hop pad k fin buf in o :: hist_spec size hop pad r buf k' fin'
+  | HBuf l :: r => hist_spec size hop pad r l k fin
+  end.
+
+(* items already handed over when k complete blocks were produced: block k-1 ends at (k-1)*hop+size *)
+Definition items_read (size hop k : nat) : nat :=
+  match k with O => 0 | S k' => k' * hop + size end.
+
+(* the owner only touches what was not handed over yet (no statement is made otherwise) *)
+Fixpoint hist_ok (size hop : nat) (pad : A) (ops : list (hop_t A)) (buf : list A)
+         (k : nat) (fin : bool) : Prop :=
+  match ops with
+  | [] => True
+  | HNext :: r => hist_ok size hop pad r buf (fst (snd (hist_next size hop pad k fin buf)))
+                          (snd (snd (hist_next size hop pad k fin buf)))
+  | HBuf l :: r =>
+    (fin = true \/ firstn (items_read size hop k) l = firstn (items_read size hop k) buf /\
+                    (items_read size hop k <= length l)%nat)
+    /\ hist_ok size hop pad r l k fin
+  end.
+
+(* zero_pad on a live list: j = items given so far, e = Some m once the list was found to end after m items *)
+Definition zhist_next (left right : nat) (zero : A) (j : nat) (e : option nat) (buf : list A)
+  : option A * (nat * option nat) :=
+  if (j <? left)%nat then (Some zero, (S j, e)) else
+  match e with
+  | Some m => if (j - left - m <? right)%nat then (Some zero, (S j, e)) else (None, (j, e))
+  | None => match nth_error buf (j - left) with
+            | Some x => (Some x, (S j, None))
+            | None => if (0 <? right)%nat then (Some zero, (S j, Some (j - left)%nat)) else (None, (j, Some (j - left)%nat))
+            end
+  end.
+Fixpoint zhist_spec (left right : nat) (zero : A) (ops : list (hop_t A)) (buf : list A) (j : nat) (e : option nat)
+  : list (option A) :=
+  match ops with
+  | [] => []
+  | HNext :: r => let '(o, (j', e')) := zhist_next left right zero j e buf in o :: zhist_spec left right zero r buf j' e'
+  | HBuf l :: r => zhist_spec left right zero r l j e
+  end.
+End LiveSpec.
